@@ -165,6 +165,21 @@ def _len(x):
 def _m_int(*a, **k):
     if len(a) == 1 and isinstance(a[0], (SymInt, SymBool)):
         return lift(a[0]) if isinstance(a[0], SymBool) else a[0]
+    if len(a) == 2 and type(a[0]) is SymStr and type(a[1]) is int and a[1] == 2 and not k:
+        # int(s, 2) on digits that are symbolic: every character must be '0' or '1' (sign, blanks, underscores and '0b' are not modelled: unsupported)
+        items = a[0].items
+        if not items:
+            raise ValueError("invalid literal for int() with base 2: ''")
+        v = 0
+        for c in items:
+            if type(c) is int:
+                if c not in (48, 49):
+                    raise SxUnsupported("int(s, 2) on a symbolic string with a concrete non-digit")
+            elif not (c.lo >= 48 and c.hi <= 49):
+                if not bool(sor(c == 48, c == 49)):
+                    raise ValueError("invalid literal for int() with base 2")
+            v = v * 2 + (c - 48)
+        return v
     return int(*a, **k)
 
 
@@ -379,6 +394,9 @@ def _m_sorted(it, *, key=None, reverse=False):
 
 
 def _m_len(x):
+    from .seq import LazyBinStr
+    if type(x) is LazyBinStr:
+        return x.sym_len()
     return len(x)
 
 
@@ -736,6 +754,7 @@ ALWAYS = {io.BytesIO: _m_BytesIO, bytearray: _m_bytearray, memoryview: _m_memory
 for _n in ("sha256", "sha1", "sha512"):
     ALWAYS[getattr(hashlib, _n)] = MODELS[getattr(hashlib, _n)]
 ALWAYS[hashlib.new] = _m_hashlib_new
+ALWAYS[len] = _m_len          # the length of an unpadded binary rendering of a symbolic int is symbolic
 ALWAYS[_hmac.new] = _m_hmac_new
 ALWAYS[_hmac.digest] = _m_hmac_digest
 
@@ -908,6 +927,9 @@ def fstr(*pieces):
             out.append(value)
             symbolic = True
             continue
+        if type(value) is SymInt and spec == "b" and conv == -1 and len(pieces) == 1:
+            from .seq import LazyBinStr
+            return LazyBinStr(value)      # the unpadded binary rendering: its length is symbolic
         if conv == 114:
             value = repr(value)
         elif conv == 115:
